@@ -1216,7 +1216,18 @@ def audit(out: OutputBuffer, aconf: AuditConf, sshv: Optional[int] = None, print
     if err is None:
         s.send_kexinit()  # Send the algorithms we support (except we don't since this isn't a real SSH connection).
 
-        packet_type, payload = s.read_packet(sshv)
+        try:
+            packet_type, payload = s.read_packet(sshv)
+        except SSH_Socket.InvalidPacketException as e:
+            out.fail(str(e))
+
+            # If we're running against multiple targets, return a connection error to the calling worker thread.  Otherwise, write the error message to the console and exit.
+            if len(aconf.target_list) > 0:
+                return exitcodes.CONNECTION_ERROR
+            else:
+                out.write()
+                sys.exit(exitcodes.CONNECTION_ERROR)
+
         if packet_type < 0:
             try:
                 if len(payload) > 0:
@@ -1246,7 +1257,13 @@ def audit(out: OutputBuffer, aconf: AuditConf, sshv: Optional[int] = None, print
         out.fail(err)
         return exitcodes.CONNECTION_ERROR
     if sshv == 1:
-        program_retval = output(out, aconf, banner, header, pkm=SSH1_PublicKeyMessage.parse(payload))
+        try:
+            pkm = SSH1_PublicKeyMessage.parse(payload)
+        except Exception:
+            out.fail("Failed to parse server's public key message.  Stack trace:\n%s" % str(traceback.format_exc()))
+            return exitcodes.CONNECTION_ERROR
+
+        program_retval = output(out, aconf, banner, header, pkm=pkm)
     elif sshv == 2:
         try:
             kex = SSH2_Kex.parse(out, payload)
